@@ -52,6 +52,54 @@ def _work(item, seed, tier):
     return acc
 
 
+def case_browser(p):
+    """Announcements as they really arrive: through the zeroconf browser callback of a real IpController (debounced resolution, goodbyes), with a
+    loaded pairing whose connection attempts are all refused.  After the accessory was announced at a NEW address (and not taken back), an attempt
+    that lists that address follows within 130 s: no advertised address is ignored forever."""
+    from vt.props import c19
+
+    h = c19.H(dict(kind="ip", pairing="cached", browser=True, waiters=0, ids=1, P=0, seed=p.get("seed", 0)))
+    out = []
+    try:
+        net = h.net
+        last_addr, announced_at, removed = None, None, False
+        for ev in p["history"]:
+            kind, _, arg = ev.partition(":")
+            if kind == "add":
+                h._zc("zc-add", c19.IDS[0], "ip", address=arg)
+                last_addr, announced_at, removed = arg, h.loop.time(), False
+            elif kind == "rm":
+                h._zc("zc-rm", c19.IDS[0], "ip")
+                removed = True
+            elif kind == "wait":
+                h.loop.advance(float(arg))
+            h.loop.run_until_idle()
+        n0 = len(net.attempts)
+        h.loop.advance(130.0)
+        if last_addr is not None and not removed:
+            later = [a for a in net.attempts if a["t"] >= announced_at - 1e-9]
+            if not any(last_addr in a["hosts"] for a in later):
+                out.append(("c10:browser:announced-address-never-tried", {"history": p["history"], "announced": last_addr, "at": announced_at, "attempt_hosts_since": [a["hosts"] for a in later][:6], "attempts_total": len(net.attempts)}))
+    finally:
+        h.close()
+    return out
+
+
+CASES["browser"] = case_browser
+
+
+def _work_browser(item, seed, tier):
+    acc = core.Acc()
+    for hist in item:
+        p = {"history": list(hist), "seed": seed}
+        v = case_browser(p)
+        acc.case(key=("browser", tuple(hist)), outcome=f"browser:{'ok' if not v else v[0][0]}", sample={"case": "browser", "params": p}, symbols=("browser",) + tuple("br:" + e.split(":")[0] for e in hist))
+        acc.traces += 1
+        for sig, detail in v:
+            acc.violation(sig, "browser", p, detail)
+    return acc
+
+
 def plan(ctx, configs):
     work = []
     for p, d in configs:
@@ -84,6 +132,8 @@ def run(ctx):
             (dict(hosts=["10.0.0.1", "10.0.0.2"], rounds=6, prelude=["ok|10.0.0.1|ok", "drop"], **small), 1),
             (dict(hosts=["10.0.0.1"], rounds=5, prelude=["ok|10.0.0.1|auth-error"], **small), 2),
             (dict(hosts=["10.0.0.1"], rounds=6, prelude=["refuse", "timer", "refuse", "timer", "refuse", "close", "zc-same"], **small), 1),
+            # announcements that change only the port (same addresses), alone and mixed with address changes
+            (dict(hosts=["10.0.0.1", "10.0.0.2"], rounds=7, behaviours=["ok", "wrong-id"], triggers=["zc-port", "zc-same", "zc-changed", "drop"]), 2),
             # the controller itself gives a connection up (garbled 2xx reply to an application write on an idle session): retries must follow
             (dict(hosts=["10.0.0.1"], rounds=6, behaviours=["ok", "auth-error"], triggers=["put-garbled:not-json", "put-garbled:not-utf8", "put-garbled:truncated-json", "drop", "zc-same", "close"]), 2),
             # other environments (read boundaries, block sizes, HTTP spelling of the accessory's replies): nothing in the property depends on them
@@ -111,6 +161,12 @@ def run(ctx):
             (dict(hosts=["10.0.0.1", "10.0.0.2"], rounds=8, prelude=["ok|10.0.0.2|wrong-id"], behaviours=["ok", "wrong-id", "close-m1"], triggers=["zc-same", "zc-changed", "zc-changed-last", "drop", "ensure", "close"]), 3),
             (dict(hosts=["10.0.0.1", "10.0.0.2", "fd00::1"], rounds=7, prelude=["ok|10.0.0.2|wrong-id"], behaviours=["ok", "wrong-id"], triggers=["zc-same", "zc-changed", "zc-changed-last", "drop"]), 2),
         ]
+    import itertools
+
+    alph = ["add:10.0.0.5", "add:10.0.0.6", "rm", "wait:0.3", "wait:1.0"]
+    hists = [hh for n_ in range(1, (4 if quick else 6) + 1) for hh in itertools.product(alph, repeat=n_) if any(e.startswith("add") for e in hh) and not any(a.startswith("wait") and b.startswith("wait") for a, b in zip(hh, hh[1:]))]
+    ctx.pmap(_work_browser, [hists[i : i + 25] for i in range(0, len(hists), 25)])
+    ctx.bounds.update(browser_histories=len(hists), browser_alphabet=alph)
     work = plan(ctx, configs)
     ctx.bounds.update(configs=[dict(hosts=c["hosts"], rounds=c["rounds"], deviations=d) for c, d in configs])
     ctx.pmap(_work, work)
